@@ -82,6 +82,28 @@ def gen_spec(rng, wide_times=False):
     return {"s": s, "std": std, "dst": dst, "sr": sr, "st": 7200 if st is None else st, "er": er,
             "et": 7200 if et is None else et, "south": south}
 
+def spelling_family(s):
+    """the spelling families of C08.tzstr_render_partial present in a generated string (for the evidence)"""
+    import re
+    head, r1, r2 = s.split(",")
+    fams = []
+    for part in re.findall(r"[A-Za-z]+([+-]?[0-9:]*)", head):
+        if part:
+            sign = "+" if part[0] == "+" else ("-" if part[0] == "-" else "nosign")
+            body = part.lstrip("+-")
+            sp = "hh:mm" if ":" in body else ("hhmm" if len(body) == 4 else "h")
+            fams.append("offset:%s:%s" % (sign, sp))
+        else:
+            fams.append("offset:absent")
+    for r in (r1, r2):
+        rule, _, tm = r.partition("/")
+        fams.append("rule:" + ("M" if rule.startswith("M") else "J" if rule.startswith("J") else "n"))
+        if not tm:
+            fams.append("time:absent")
+        else:
+            fams.append("time:" + ("hh:mm:ss" if tm.count(":") == 2 else "hh:mm" if ":" in tm else "hhmm" if len(tm) == 4 else "h"))
+    return fams
+
 def posix_canon(spec):
     """the same specification in strict POSIX spelling (h[:mm[:ss]] offsets and times), for glibc"""
     def hms(x):
@@ -218,7 +240,10 @@ def correspondence(ctx):
     strings = list(FIXED_STRINGS)
     n = ctx.budget(1500, 40000)
     for _ in range(n // 3):
-        strings.append(gen_spec(rng, wide_times=True)["s"])
+        gs = gen_spec(rng, wide_times=True)["s"]
+        strings.append(gs)
+        for fam in spelling_family(gs):        # the families of C08.tzstr_render_partial, sent to both sides
+            ctx.count("render_family:" + fam)
     base = list(strings)
     for _ in range(n):
         s = rng.choice(base)
@@ -284,6 +309,50 @@ def equivalent_tzrange(spec):
     save = spec["dst"] - spec["std"]
     return tz.tzrange("AAA", spec["std"], "BBB", spec["dst"], delta(spec["sr"], spec["st"]), delta(spec["er"], spec["et"] - save))
 
+def tzrange_argument_forms(spec):
+    """the same zone through other legal spellings of tzrange's arguments: offsets as timedelta, the daylight offset left
+    to its default (std + 1 h) when it is that, the rule time spread over hours/minutes/seconds, weekday constants with
+    and without an explicit +1, keyword arguments"""
+    import datetime
+    from dateutil import tz, relativedelta as rd
+    SHORT = (rd.MO, rd.TU, rd.WE, rd.TH, rd.FR, rd.SA, rd.SU)
+    def delta(r, secs, style):
+        kw = {}
+        if r[0] == "M":
+            _, m, w, d = r
+            wd = (d - 1) % 7
+            if w == 5:
+                kw.update(month=m, day=31, weekday=SHORT[wd](-1))
+            elif w == 1 and style == 1:
+                kw.update(month=m, day=1, weekday=SHORT[wd])            # n=None means +1
+            else:
+                kw.update(month=m, day=1, weekday=SHORT[wd](+w))
+        elif r[0] == "J":
+            kw.update(nlyearday=r[1])
+        else:
+            kw.update(yearday=r[1] + 1)
+        if style == 0:
+            kw["seconds"] = secs
+        else:
+            sign = -1 if secs < 0 else 1
+            a = abs(secs)
+            kw.update(hours=sign * (a // 3600), minutes=sign * (a % 3600 // 60), seconds=sign * (a % 60))
+        return rd.relativedelta(**kw)
+    save = spec["dst"] - spec["std"]
+    td = datetime.timedelta
+    out = [("timedelta-offsets", tz.tzrange("AAA", td(seconds=spec["std"]), "BBB", td(seconds=spec["dst"]),
+                                            delta(spec["sr"], spec["st"], 0), delta(spec["er"], spec["et"] - save, 0))),
+           ("hms-deltas", tz.tzrange("AAA", spec["std"], "BBB", spec["dst"],
+                                     delta(spec["sr"], spec["st"], 1), delta(spec["er"], spec["et"] - save, 1))),
+           ("keywords", tz.tzrange(stdabbr="AAA", stdoffset=spec["std"], dstabbr="BBB", dstoffset=spec["dst"],
+                                   start=delta(spec["sr"], spec["st"], 1), end=delta(spec["er"], spec["et"] - save, 0)))]
+    if save == 3600:
+        out.append(("default-dstoffset", tz.tzrange("AAA", spec["std"], "BBB", start=delta(spec["sr"], spec["st"], 0),
+                                                    end=delta(spec["er"], spec["et"] - save, 0))))
+        out.append(("default-dstoffset-timedelta", tz.tzrange("AAA", td(seconds=spec["std"]), "BBB", None,
+                                                              delta(spec["sr"], spec["st"], 1), delta(spec["er"], spec["et"] - save, 1))))
+    return out
+
 def _rule_in_class(spec, which):
     save = spec["dst"] - spec["std"]
     if which == "start":
@@ -347,8 +416,76 @@ def check_zone(ctx, what, z, spec, instants, expect, tag):
                 return False
     return bad == 0
 
+FRESH_CHILD = """
+import datetime, warnings
+warnings.simplefilter("ignore")
+from dateutil import tz
+try:
+    z = %s
+    for s in %r:
+        u = datetime.datetime(1970, 1, 1) + datetime.timedelta(seconds=s)
+        b = u.replace(tzinfo=tz.UTC).astimezone(z)
+        print(b.replace(tzinfo=None).isoformat(), b.fold, b.utcoffset(), b.tzname(), b.dst())
+except Exception as ex:
+    print("EXC", type(ex).__name__)
+"""
+
+def oracle_fresh(ctx):
+    """the first use in a NEW interpreter (lazy imports and module caches empty; for tzlocal: the TZ of the environment
+    the process was started in, no tzset) answers like this long-running process, whose answers the main oracle
+    compares with POSIX"""
+    import datetime, os, time
+    from dateutil import tz
+    from vlib import fresh_interpreters
+    rng = ctx.subrng("fresh")
+    jobs = []
+    epoch = datetime.datetime(1970, 1, 1)
+    for k in range(ctx.budget(6, 60)):
+        spec = gen_spec(rng)
+        pts = [int((u - epoch).total_seconds()) for u, near in probe_instants(spec, (2020,), 0) if near][:40]
+        kind = ("tzstr", "tzstr_posix", "tzlocal")[k % 3]
+        if kind == "tzlocal":
+            jobs.append((kind, posix_canon(spec), "tz.tzlocal()", pts))
+        else:
+            jobs.append((kind, spec["s"], "tz.tzstr(%r%s)" % (spec["s"], ", posix_offset=True" if kind == "tzstr_posix" else ""), pts))
+    # children are grouped by environment: tzlocal children get TZ=<spec>
+    res = [None] * len(jobs)
+    plain = [i for i, j in enumerate(jobs) if j[0] != "tzlocal"]
+    for i, r in zip(plain, fresh_interpreters([FRESH_CHILD % (jobs[i][2], jobs[i][3]) for i in plain])):
+        res[i] = r
+    for i, j in enumerate(jobs):
+        if j[0] == "tzlocal":
+            res[i] = fresh_interpreters([FRESH_CHILD % (j[2], j[3])], env={"TZ": j[1]})[0]
+    for (kind, s, ctor, pts), (rc, out, err) in zip(jobs, res):
+        ctx.case(("fresh", kind, s)); ctx.count("fresh_interpreter_" + kind)
+        here = []
+        old = os.environ.get("TZ")
+        try:
+            with warnings.catch_warnings():
+                warnings.simplefilter("ignore")
+                if kind == "tzlocal":
+                    os.environ["TZ"] = s; time.tzset()
+                z = eval(ctor, {"tz": tz})
+                for p in pts:
+                    b = (epoch + datetime.timedelta(seconds=p)).replace(tzinfo=tz.UTC).astimezone(z)
+                    here.append("%s %s %s %s %s" % (b.replace(tzinfo=None).isoformat(), b.fold, b.utcoffset(), b.tzname(), b.dst()))
+        except Exception as ex:
+            here.append("EXC %s" % type(ex).__name__)
+        finally:
+            if kind == "tzlocal":
+                if old is None: os.environ.pop("TZ", None)
+                else: os.environ["TZ"] = old
+                time.tzset()
+        there = out.strip().splitlines() if rc == 0 else ["child failed rc=%s: %s" % (rc, err.strip().splitlines()[-1:] or "")]
+        if here != there:
+            i = next((n for n, (x, y) in enumerate(zip(here, there)) if x != y), min(len(here), len(there)))
+            ctx.violation("%s as the first dateutil call of a new interpreter answers differently: %s, this process: %s"
+                          % (ctor, there[i] if i < len(there) else "<nothing>", here[i] if i < len(here) else "<nothing>"),
+                          {"kind": "fresh-interpreter", "zone": kind, "s": s}, None)
+
 def oracle(ctx):
     from dateutil import tz
+    oracle_fresh(ctx)
     rng = ctx.subrng("oracle")
     nspecs = ctx.budget(90, 3000)
     years = (2019, 2020, 2021)
@@ -381,6 +518,24 @@ def oracle(ctx):
                 # equality compares the relativedeltas; the equivalent construction must compare equal
                 ctx.violation("tzstr(%r) != equivalent tzrange" % spec["s"], {"kind": "eq", "s": spec["s"]},
                               {"tzstr": [repr(zs._start_delta), repr(zs._end_delta)], "tzrange": [repr(zr._start_delta), repr(zr._end_delta)]})
+        # other legal spellings of the same tzrange arguments: equal zone, same answers
+        if k % 3 == 1:
+            with warnings.catch_warnings():
+                warnings.simplefilter("ignore")
+                try:
+                    forms = tzrange_argument_forms(spec)
+                except Exception as ex:
+                    ctx.violation("tzrange(...) raised %s for an equivalent spelling of its arguments" % type(ex).__name__,
+                                  {"kind": "tzrange-form", "s": spec["s"]}, repr(ex))
+                    forms = []
+            for label, zf in forms:
+                ctx.count("tzrange_form_" + label)
+                check_zone(ctx, "tzrange", zf, spec, instants, expect, "tzrange:" + label)
+                if not (zf == zr) or not (zr == zf):
+                    ctx.violation("tzrange spelled with %s != the tzrange built from integer seconds" % label,
+                                  {"kind": "eq-form", "s": spec["s"], "form": label},
+                                  {"form": [repr(zf._start_delta), repr(zf._end_delta), repr(zf._std_offset), repr(zf._dst_offset)],
+                                   "base": [repr(zr._start_delta), repr(zr._end_delta), repr(zr._std_offset), repr(zr._dst_offset)]})
         # tzlocal under TZ=<string> (glibc): only instants representable by time_t on this platform
         if k % 3 == 0:
             old = os.environ.get("TZ")
